@@ -35,7 +35,12 @@ func newTCPSession(user, password, key string) (ts *tcpSession, err error) {
 			ts, err = nil, fmt.Errorf("NewClient panics")
 		}
 	}()
-	ln, err := net.Listen("tcp", "127.0.0.1:0")
+	lnAddr := "127.0.0.1:0"
+	if tcpHost == "[::1]" {
+		// the device addressed by an IPv6 literal in brackets (skipped where the loopback has no IPv6)
+		lnAddr = "[::1]:0"
+	}
+	ln, err := net.Listen("tcp", lnAddr)
 	if err != nil {
 		return nil, err
 	}
@@ -327,7 +332,7 @@ func init() {
 			for _, v := range []struct {
 				hb   time.Duration
 				host string
-			}{{10 * time.Hour, ""}, {100000 * time.Hour, ""}, {0, "localhost"}} {
+			}{{10 * time.Hour, ""}, {100000 * time.Hour, ""}, {0, "localhost"}, {0, "[::1]"}} {
 				sc := &scenario{name: fmt.Sprintf("options hb=%v host=%q", v.hb, v.host), fails: map[int]bool{}, hb: v.hb, host: v.host}
 				for k := 0; k < 5; k++ {
 					if k%2 == 1 {
